@@ -271,6 +271,8 @@ func (v *Val) mapToGo() any {
 		kt = reflect.TypeOf("")
 	case "int64":
 		kt = reflect.TypeOf(int64(0))
+	case "nstr":
+		kt = reflect.TypeOf(MyStr("")) // a defined string type as key: kind String, but not `string`
 	default:
 		kt = reflect.TypeOf(false) // "other": map[bool]...
 	}
@@ -366,6 +368,8 @@ func Enc(x any) *Val {
 			out.MK = "string"
 		case rt.Key() == reflect.TypeOf(int64(0)):
 			out.MK = "int64"
+		case rt.Key() == reflect.TypeOf(MyStr("")):
+			out.MK = "nstr"
 		default:
 			out.MK = "other"
 		}
